@@ -14,7 +14,9 @@ LEVEL = "exploration"
 RULE = ("case = generated well-typed program, compiled as is (must be accepted: exit 0, no (Error) line, .ao .c .fm written) and once per (catalogue "
         "entry, site): M1 argument of a nominal type no operation accepts, M2a/M2b too few / too many arguments, M3 undefined name, M4 ambiguous "
         "name assigned to an undeclared variable, M5 assignment to a constant, M6 wrong return type, M7 domain lacking an export of its category, "
-        "M8 operation the parameter's category lacks; statement faults are planted at every position of the main block and of every function "
+        "M8 operation the parameter's category lacks, M9 required export implemented only under a condition, M10/M11/M12 a name imported from two "
+        "instances of one parametrised domain / two parameters of one category / file level and function level, used unqualified; each of M9..M12 "
+        "has a well-typed twin (export conditional too; use qualified with $) that must be accepted; statement faults are planted at every position of the main block and of every function "
         "body (a seeded sample of the sites in the quick tier). A mutant must give exit != 0, >= 1 (Error) line with a position, and none of .ao .c "
         ".fm .lsp. Non-trivial = the program has >= 10 statements and the fault is not at position 0 of main; distinct = (program, entry, site).")
 ASSUMPTIONS = ["each catalogue fault is illegal by construction (nominal domain TokQ, fresh identifiers); no particular message text is demanded"]
@@ -79,6 +81,16 @@ def _worker(args):
             return f if check_accept(tc, src, h + "r") is not None else None
         sites = P.mutant_sites(pr)
         nst = len(pr[2])
+        # the well-typed twins of M9..M12 must be accepted: the catalogue's declarations themselves are legal
+        for kind in P.TWIN_KINDS:
+            site = sites[rnd.randrange(len(sites))]
+            wsrc, _ = P.render_mutant(pr, kind, site)
+            key = "%s|%s|%s" % (h, kind, site)
+            f = check_accept(tc, wsrc, hashlib.sha256(key.encode()).hexdigest()[:12])
+            ev.case(key, nst >= 10, classes=["twin_" + kind, "twin_accepted" if f is None else "twin_" + f.desc["kind"]])
+            if f is not None:
+                f.desc["twin"] = kind
+                return f
         for kind in P.MUTANT_KINDS:
             tops, stmt, tok = P.mutant_parts(kind)
             chosen = [sites[0]] if stmt is None else ([sites[rnd.randrange(len(sites))] for _ in range(persite)] if persite else sites)
@@ -97,7 +109,7 @@ def _worker(args):
 
 
 def run(ctx):
-    n = ctx.n(22, 90)
+    n = ctx.n(16, 90)
     ctx.pmap(_worker, [(ctx.tc, ctx.seed, i, n, 3 if ctx.quick else 0) for i in range(16)])
 
 
